@@ -99,7 +99,9 @@ def gen(rng, cid, nops):
                 ops.append({"op": "rename", "file": f, "to": to})
                 state[to] = state.pop(f)
         elif r < 0.75:
-            ops.append({"op": "rmdir_mkdir", "gap_us": rng.choice([0, 0, 2000, 20000])})
+            # sometimes a burst: the directory is removed again while the service is still re-arming its watch
+            for _ in range(rng.choice([1, 1, 2, 3, 4])):
+                ops.append({"op": "rmdir_mkdir", "gap_us": rng.choice([0, 0, 0, 300, 2000, 20000])})
             state.clear()
             recreated += 1
         elif r < 0.9:
@@ -168,8 +170,10 @@ def judge(case, results):
                 f = stale[0].split("#")[0]
                 cur = meta["final"].get(f)
                 disc = "file-deleted" if cur is None else "latest-content-" + cur[0]
-            v.bad(rule, disc, "scenario %s: after quiescence active contents %s; valid files present %s (final state %s); last ops %s" % (
-                scn["id"], got, want, meta["final"], [(o["op"], o.get("file")) for o in scn["ops"][-8:]]))
+            import re
+            loglines = [l[-160:] for l in r["err"].split("\n") if re.search(r"inotify|epoll|not a directory|drop in config=|Could not|Failed", l)]
+            v.bad(rule, disc, "scenario %s: after quiescence active contents %s; valid files present %s (final state %s); last ops %s\n  last oomd log lines:\n    %s" % (
+                scn["id"], got, want, meta["final"], [(o["op"], o.get("file")) for o in scn["ops"][-8:]], "\n    ".join(loglines[-30:])))
         else:
             v.count("converged_runs")
         if len(want) >= 3 and (meta["recreated"] or meta["invalid"] >= 5):
